@@ -2,6 +2,8 @@ pub mod engine;
 pub mod gens;
 pub mod model;
 pub mod props;
+pub mod vm;
+pub mod vmfix;
 
 use engine::{Ctx, Known, Tier};
 
@@ -20,6 +22,13 @@ fn main() {
         for (id, _) in &reg {
             println!("{id}");
         }
+        return;
+    }
+    if args[0] == "--trace" && args.len() >= 2 {
+        let j: serde_json::Value = serde_json::from_str(&std::fs::read_to_string(&args[1]).expect("read")).expect("json");
+        let w = if j.get("case").is_some() { j["case"]["world"].clone() } else if j.get("world").is_some() { j["world"].clone() } else { j };
+        let spec: vm::world::WorldSpec = serde_json::from_value(w).expect("world spec");
+        vm::world::trace(&spec, args.get(2).and_then(|s| s.parse().ok()).unwrap_or(500));
         return;
     }
     let id = args[0].as_str();
